@@ -348,24 +348,38 @@ def run(ctx, repo, tier):
             is1 = isinstance(sl, ast.Slice) and isinstance(sl.lower, ast.Constant) and sl.lower.value == 1 and sl.upper is None
             if is0 or is1:
                 rep_sites.append(n)
-    ctx.instance("ORD", len(rep_sites))
-    for n in rep_sites:
+    # the same split written as star-unpacking:  for first, *rest in GROUPS
+    star_loops = [lp for lp in ast.walk(fm.node) if isinstance(lp, ast.For) and isinstance(lp.target, ast.Tuple) and len(lp.target.elts) == 2 and
+                  isinstance(lp.target.elts[0], ast.Name) and isinstance(lp.target.elts[1], ast.Starred)]
+    class _Split:
+        """adapter: a star-unpacking loop seen as the split site `G[i][0]` / `G[i][1:]`"""
+        def __init__(self, lp):
+            self.value, self.slice, self._lp = lp.iter, ast.Constant(value=0), lp
+    ctx.instance("ORD", len(rep_sites) + len(star_loops))
+    for n in rep_sites + [_Split(lp) for lp in star_loops]:
         k = oa_m.expr_kind.get(id(n.value))
+        if isinstance(n, _Split):
+            k = k.inner if k is not None else None
         what = "representative (first member)" if isinstance(n.slice, ast.Constant) else "merged members (rest)"
+        if isinstance(n, _Split):
+            what = "representative and rest (star-unpacked)"
         if k is None:
+            if isinstance(n, _Split):
+                ctx.inconclusive("ORD", "C13.merge.representative", "order of the star-unpacked groups is not derivable", fm.where, src(n._lp.target))
             continue
+        ntxt = f"for {src(n._lp.target)} in {src(n.value)}" if isinstance(n, _Split) else src(n)
         if k.order == ASC:
-            ctx.ok("ORD", "C13.merge.representative", f"group split `{src(n)}` acts on an ascending group: {what} is relative "
-                   "to the smallest current row", fm.where, src(n), derived=f"{src(n.value)}: ASC ({k.why})")
+            ctx.ok("ORD", "C13.merge.representative", f"group split `{ntxt}` acts on an ascending group: {what} is relative "
+                   "to the smallest current row", fm.where, ntxt, derived=f"{src(n.value)}: ASC ({k.why})")
         elif k.order in (UNORDERED, SETK, DESC):
-            ctx.violate("ORD", "C13.merge.representative", f"group split `{src(n)}` acts on a group that is not ascending: the "
-                        "merged cell is not placed at the smallest index", fm.where, src(n), witness=f"{src(n.value)}: {k.order} ({k.why})")
+            ctx.violate("ORD", "C13.merge.representative", f"group split `{ntxt}` acts on a group that is not ascending: the "
+                        "merged cell is not placed at the smallest index", fm.where, ntxt, witness=f"{src(n.value)}: {k.order} ({k.why})")
         elif _unordered_construction(k):
-            ctx.violate("ORD", "C13.merge.representative", f"group split `{src(n)}` acts on a group built without any ordering "
-                        "operation on some path", fm.where, src(n), witness=f"{src(n.value)}: {k.order} ({k.why})")
+            ctx.violate("ORD", "C13.merge.representative", f"group split `{ntxt}` acts on a group built without any ordering "
+                        "operation on some path", fm.where, ntxt, witness=f"{src(n.value)}: {k.order} ({k.why})")
         else:
-            ctx.inconclusive("ORD", "C13.merge.representative", f"order of the group in `{src(n)}` is not derivable on every path",
-                             fm.where, src(n), witness=f"{src(n.value)}: {k.order} ({k.why})")
+            ctx.inconclusive("ORD", "C13.merge.representative", f"order of the group in `{ntxt}` is not derivable on every path",
+                             fm.where, ntxt, witness=f"{src(n.value)}: {k.order} ({k.why})")
     # CLOSED: the groups that are split into representative + rest must be disjoint and non-empty in the index space of the matrix
     # rows: guaranteed only for the output of merge_sublists (transitive closure) on every path
     grp_lists = []
@@ -375,6 +389,7 @@ def run(ctx, repo, tier):
             if isinstance(n.elt, ast.Subscript) and isinstance(n.elt.value, ast.Name) and n.elt.value.id == tv and \
                     isinstance(n.elt.slice, ast.Constant) and n.elt.slice.value == 0:
                 grp_lists.append(n.generators[0].iter)
+    grp_lists += [lp.iter for lp in star_loops]
     ctx.instance("OWN", len(grp_lists))
     for gexpr in grp_lists:
         k = oa_m.expr_kind.get(id(gexpr))
@@ -390,7 +405,7 @@ def run(ctx, repo, tier):
                         witness="e.g. index_list=[[0],[1,2],[3]], all_to_join=[[0,2],[1,3]] -> rows [0,1] and [1,2] overlap; "
                                 "index_list=[[0],[2]], all_to_join=[[1,3]] -> empty group, to_join[0] raises IndexError",
                         key="OWN|molgri/molecules/rate_merger.py:merge_matrix_cells|re-indexed groups not re-closed")
-    if len(rep_sites) < 3:
+    if len(rep_sites) < 3 and not star_loops:
         ctx.inconclusive("ORD", "C13.merge.representative.count", "expected the representative/rest split of the groups (3 sites)",
                          fm.where, witness=f"found {len(rep_sites)}")
     # pops: for v in IT: L.pop(v)   => IT descending
@@ -432,7 +447,10 @@ def run(ctx, repo, tier):
                   "set subtracted from the kept columns", fm.where, norm_stmt(keep_defs[0]),
                   witness=f"kept-columns definition uses {sorted(used)}, pops iterate over {sorted(pop_iter_names)}")
     # modified groups re-sorted
-    ext = [e for e in oa_m.events if e[0] in ("extend", "append") and "[" in e[1] and e[4]]
+    # a group may be addressed through a local alias:  g = index_list[c]; g.extend(..); g.sort()
+    alias_sub = {n.targets[0].id for n in ast.walk(fm.node) if isinstance(n, ast.Assign) and len(n.targets) == 1 and
+                 isinstance(n.targets[0], ast.Name) and isinstance(n.value, ast.Subscript) and not isinstance(n.value.slice, ast.Slice)}
+    ext = [e for e in oa_m.events if e[0] in ("extend", "append") and ("[" in e[1] or e[1] in alias_sub) and e[4]]
     sorts = [e for e in oa_m.events if e[0] == "sort"]
     ctx.instance("DOM", len(ext))
     for e in ext:
